@@ -125,6 +125,21 @@ Theorem C06_tw_tails_add_up : forall meth X y t,
 Proof. exact tw_model_split2. Qed.
 Print Assumptions C06_tw_tails_add_up.
 
+(* from cases to labelled arrays: the per-case arrays behind tail_tw / interval_tw / crps_for_ensemble (before weights and the
+   final mean), with thresholds broadcast by name -- scalars are 0-d arrays, arrays give per-case thresholds -- satisfy the
+   same identity at every cell whose thresholds are finite with a <= b *)
+Theorem C06_tw_parts_add_up_arrays : forall meth f o lo hi m e a b,
+  meth = "ecdf" \/ meth = "fair" -> mem m (ldims f) = true ->
+  (forall e i, lget lo (upd e m i) = lget lo e) -> (forall e i, lget hi (upd e m i) = lget hi e) ->
+  lget lo e = XFin a -> lget hi e = XFin b -> a <= b ->
+  List.Forall (fun v => xisinf v = false) (members f m e) -> xisinf (lget o e) = false ->
+  xadd (xadd (lget (case_arr (lzip (gen_chain_tail "lower") f lo) (lzip (gen_chain_tail "lower") o lo) m (crps_case meth)) e)
+             (lget (case_arr (lzip3 gen_chain_interval f lo hi) (lzip3 gen_chain_interval o lo hi) m (crps_case meth)) e))
+       (lget (case_arr (lzip (gen_chain_tail "upper") f hi) (lzip (gen_chain_tail "upper") o hi) m (crps_case meth)) e)
+  =x= lget (case_arr f o m (crps_case meth)) e.
+Proof. exact array_parts_add_up. Qed.
+Print Assumptions C06_tw_parts_add_up_arrays.
+
 (* the documented guards: interval thresholds must satisfy lower < upper (scalar and array form), tail and method names *)
 Theorem C06_interval_guard : forall lo hi : Q,
   (gen_guard_interval (XFin lo) (XFin hi) = true <-> hi <= lo) /\ (gen_guard_interval_arr (XFin lo) (XFin hi) = true <-> hi <= lo).
